@@ -23,6 +23,8 @@ pub mod cln_rpc_err {
     /// mirror of cln_rpc::RpcError (code / message)
     pub struct ClnRpcError { pub code: Option<i32>, pub message: String }
 }
+// the crate path under which the real code names the node's error object
+pub mod cln_rpc { pub use super::cln_rpc_err::ClnRpcError as RpcError; }
 pub mod rpc {
     use super::*;
     pub enum RpcError { Rpc(cln_rpc_err::ClnRpcError), General(AnyErr) }
@@ -41,8 +43,8 @@ pub mod rpc {
                 request.bolt11@ == old(w).bolt11,                             // #pays_the_invoice_of_the_hash [C01,C03]
                 request.maxfee is Some && request.maxfee->0.msat as int <= old(w).received_read - old(w).amount,   // #fee_budget_is_maxfee [C03]
                 request.maxfeepercent is None && request.exemptfee is None,   // #no_other_fee_knob [C03]
-                (request.amount_msat is None) == (old(w).inv_amount is Some), // #amount_only_for_amountless_invoices [C03]
-                request.amount_msat is Some ==> request.amount_msat->0.msat == old(w).amount,   // #declared_amount_exactly [C03]
+                (request.amount_msat is None) == (old(w).inv_amount is Some), // #amount_only_for_amountless_invoices [C03,C10]
+                request.amount_msat is Some ==> request.amount_msat->0.msat == old(w).amount,   // #declared_amount_exactly [C03,C10]
                 request.partial_msat is None,                                 // #no_partial_payment [C03]
                 request.retry_for is Some,                                    // #retry_time_is_bounded [C19]
                 request.maxdelay is Some && request.maxdelay->0 as int <= max0(old(w).min_expiry_read - old(w).height_read - old(w).cltv_delta as int)
